@@ -571,6 +571,8 @@ def _fail(res, case, verdict, toks, extra=None):
 
 
 def explore(res, tier, seed, model_ok=True):
+    import gencheck   # differential test of the translated code (Generated/Code.lean) against the original Python
+    gencheck.run(res, 'C16', tier, seed, model_ok)
     rng = random.Random(seed)
     quick = tier == 'quick'
     n_fake, n_float, n_world, maxlen = (1500, 300, 160, 6) if quick else (20000, 4000, 1800, 9)
